@@ -58,7 +58,11 @@ def handle (args : List String) (_impl : String) : String × String :=
     let a := parseHex as; let m := parseHex ms; let inv := parseHex is
     match op with
     | "sqredc" =>
-        (outO (squareRedc W keepSq inv (toLimbs n a) (toLimbs n m)), spec n a a m inv)
+        -- result from the function GENERATED from the source (`Props/C11.gen_square_redc_eq`)
+        let la := toLimbs n a; let lm := toLimbs n m
+        let r := if n = 0 then squareRedc W keepSq inv la lm
+          else if (squareRedcCore W keepSq inv la lm).2 then some (Ruint.Gen.square_redc (n + 1) n la lm inv) else none
+        (outO r, spec n a a m inv)
     | "usqredc" =>
         let bits := n; let l := nlimbs bits
         let sp := if bits = 0 then "0" else if decide (m < 2 ^ bits) then spec l a a m inv else "any"
